@@ -391,6 +391,45 @@ func TestC11(t *testing.T) {
 			c.Sig(fmt.Sprintf("no-write-storage|refused=%v", err2 != nil), true)
 		})
 	}
+	// entries whose links are identity CIDs (the target is inlined in the link) or use other hash
+	// functions: their sizes count like any other entry's
+	for i := 0; i < r.Pick(8, 60); i++ {
+		i := i
+		r.Case(fmt.Sprintf("inline-entries/%d", i), map[string]any{"round": i}, func(c *mon.Case) {
+			rr := c.Rand()
+			st := store.New()
+			var entries []dagpb.PBLink
+			for k := 0; k < 3+rr.Intn(40); k++ {
+				data := gen.Content(rr, "rand", 1+rr.Intn(30))
+				code := []uint64{multihash.IDENTITY, multihash.IDENTITY, multihash.SHA2_256, multihash.SHA2_512}[rr.Intn(4)]
+				mh, err := multihash.Sum(data, code, -1)
+				if err != nil {
+					c.Harness("multihash: %v", err)
+					return
+				}
+				cc := st.PutAs(cid.NewCidV1(cid.Raw, mh), data)
+				e, _ := builder.BuildUnixFSDirectoryEntry(fmt.Sprintf("e%03d", k), int64(len(data)), cidlink.Link{Cid: cc})
+				entries = append(entries, e)
+			}
+			var l ipld.Link
+			var sz uint64
+			var err error
+			kind := "plain"
+			if i%2 == 1 {
+				kind = "sharded-16"
+				l, sz, err = builder.BuildUnixFSShardedDirectory(16, multihash.MURMUR3X64_64, entries, st.LinkSystem(false))
+			} else {
+				l, sz, err = builder.BuildUnixFSDirectory(entries, st.LinkSystem(false))
+			}
+			if err != nil {
+				c.Violation("C11|build-error", "%v", err)
+				return
+			}
+			links, _ := checkSizes(c, st, linkCid(l), sz, kind+" directory over entries with identity and other multihashes")
+			c.Count("dirs_with_inline_entries", 1)
+			c.Sig("inline-entries|"+kind, links >= 1)
+		})
+	}
 	// big sharded directories and symlinks
 	for _, f := range allFanouts {
 		f := f
